@@ -2,8 +2,8 @@
    regenerated from xgi/core/simplicialcomplex.py on every run (Gen/ScMutators.v), run under the semantics of Model/PyIR.v,
    are the model's insert_edge / remove_edge1. *)
 From Coq Require Import String ZArith List Bool Lia.
-From XV Require Import Base.Label Base.LSet Base.ODict Base.Attr Base.Outcome Model.Hypergraph Model.PyIR Gen.ScMutators
-     Proofs.HgViews Proofs.HgInv Proofs.IRLemmas.
+From XV Require Import Base.Label Base.LSet Base.ODict Base.Attr Base.Outcome Model.Hypergraph Model.SimplicialComplex Model.PyIR
+     Gen.ScMutators Proofs.HgViews Proofs.HgInv Proofs.Combs Proofs.ScInv Proofs.IRLemmas.
 Import ListNotations.
 Open Scope Z_scope.
 
@@ -57,3 +57,140 @@ Proof.
   rewrite fold_nstep_with_edge, with_eattr_with_eattr, !h_eattr_with_edge, !h_edge_with_edge, with_edge_with_edge, set_set_same, fold_nstep_h_eattr. reflexivity.
 Qed.
 
+
+(* ---------- add_simplex(members, idx=None, **attr), whole ---------- *)
+Lemma exec_rebind body en s :
+  exec (SRebindIdxFalsy body) en s =
+  let auto := match e_idx en with Some i => py_falsy i | None => true end in
+  exec_list body
+    (mkEnv (e_args en) (e_flags en) (e_loop en) (e_attr en) (e_loop1 en) (e_locals en) (e_members en)
+           (Some (if auto then LInt (h_uid s) else match e_idx en with Some i => i | None => LNone end)) (e_uid en) (e_eattr en))
+    (if auto then with_uid s (h_uid s + 1) else s).
+Proof.
+  cbn [exec]. cbv zeta. generalize (if match e_idx en with Some i => py_falsy i | None => true end then with_uid s (h_uid s + 1) else s).
+  induction body as [|q r IH]; intro s0; [reflexivity|]. cbn [exec_list].
+  destruct (exec q _ s0) as [s' [|y]]; [apply IH|reflexivity].
+Qed.
+
+Lemma exec_call body en s : exec (SCall body) en s = exec_list body en s.
+Proof.
+  cbn [exec]. generalize s. induction body as [|q r IH]; intro s0; [reflexivity|]. cbn [exec_list].
+  destruct (exec q en s0) as [s' [|y]]; [apply IH|reflexivity].
+Qed.
+
+Lemma py_falsy_is_falsy i : py_falsy i = falsy i. Proof. reflexivity. Qed.
+Lemma py_falsy_not_none i : py_falsy i = false -> is_none i = false.
+Proof. destruct i; cbn; congruence. Qed.
+
+Lemma seteqb_congr_l a a' b : seteq a a' -> seteqb a b = seteqb a' b.
+Proof.
+  intro H. destruct (seteqb a' b) eqn:E.
+  - apply seteqb_spec. apply seteqb_spec in E. intro x. rewrite (H x). apply E.
+  - destruct (seteqb a b) eqn:E'; [|reflexivity]. apply seteqb_spec in E'.
+    assert (seteqb a' b = true) by (apply seteqb_spec; intro x; rewrite <- (H x); apply E'). congruence.
+Qed.
+
+Lemma has_simplex_congr s f f' : seteq f f' -> has_simplex s f = has_simplex s f'.
+Proof.
+  intro H. unfold has_simplex, set_eqb. induction (h_edge s) as [|kv r IH]; [reflexivity|]. cbn [existsb].
+  rewrite IH, (seteqb_congr_l f f' (snd kv) H). reflexivity.
+Qed.
+
+Lemma order_by_nil_iff nh f : order_by nh f = [] <-> f = [].
+Proof.
+  split.
+  - intro H. destruct f as [|x r]; [reflexivity|]. exfalso.
+    assert (I : In x (order_by nh (x :: r))) by (apply order_by_seteq; left; reflexivity). rewrite H in I. exact I.
+  - intros ->. unfold order_by. cbn [filter app]. rewrite app_nil_r.
+    induction nh as [|y nh IH]; [reflexivity|]. cbn [filter mem]. exact IH.
+Qed.
+
+Lemma NoDup_app_disjoint_intro (a b : list lbl) : NoDup a -> NoDup b -> (forall x, In x a -> In x b -> False) -> NoDup (a ++ b).
+Proof.
+  intros Ha Hb D. induction Ha as [|x a Nx Ha IH]; [exact Hb|]. cbn [app]. constructor.
+  - rewrite in_app_iff. intros [H|H]; [contradiction|]. apply (D x); [left; reflexivity|exact H].
+  - apply IH. intros y Hy. apply D. right. exact Hy.
+Qed.
+
+Lemma order_by_NoDup nh f : NoDup nh -> NoDup f -> NoDup (order_by nh f).
+Proof.
+  intros Hn Hf. unfold order_by. apply NoDup_app_disjoint_intro; [apply NoDup_filter; exact Hn|apply NoDup_filter; exact Hf|].
+  intros x H1 H2. apply filter_In in H1. apply filter_In in H2. destruct H1 as [H1 _]. destruct H2 as [_ H2].
+  apply negb_true_iff, mem_nIn in H2. contradiction.
+Qed.
+
+(* the faces the loop visits: no repeats inside a face, no None *)
+Definition GoodFace (ms f : list lbl) : Prop := NoDup f /\ (forall x, In x f -> In x ms).
+
+Lemma order_faces_good ms hint : NoDup ms -> Forall (@NoDup lbl) hint ->
+  forall f, In f (order_faces (subfaces ms) hint) -> GoodFace ms f.
+Proof.
+  intros ND Hh f Hf. split.
+  - unfold order_faces in Hf. apply in_app_iff in Hf. destruct Hf as [Hf|Hf]; apply filter_In in Hf; destruct Hf as [Hf _].
+    + apply dedup_sets_sub in Hf. rewrite Forall_forall in Hh. apply Hh. exact Hf.
+    + apply dedup_sets_sub in Hf. unfold subfaces in Hf. apply in_flat_map in Hf. destruct Hf as (k & _ & Hk).
+      eapply combs_NoDup; eassumption.
+  - destruct (order_faces_sound _ _ _ Hf) as (g & Hg & Hs). intros x Hx. apply (proj1 (subfaces_sound ms g Hg)). apply Hs. exact Hx.
+Qed.
+
+Lemma face_loop_ok ms nh : NoDup nh -> existsb is_none ms = false ->
+  forall faces s, (forall f, In f faces -> GoodFace ms f) ->
+  loop (fun s f => run_guarded src_sc_face_guards src_sc_face_item (mkEnv [] [] LNone [] LNone [] f None LNone []) s)
+       (map (order_by nh) faces) s
+  = ok (fold_left (add_face nh) faces s).
+Proof.
+  intros Hn Nn. induction faces as [|f r IH]; intros s Hg; [reflexivity|]. cbn [map loop fold_left].
+  assert (G : GoodFace ms f) by (apply Hg; left; reflexivity). destruct G as [Gd Gs].
+  assert (Step : run_guarded src_sc_face_guards src_sc_face_item (mkEnv [] [] LNone [] LNone [] (order_by nh f) None LNone []) s
+                 = ok (add_face nh s f)).
+  { unfold run_guarded, src_sc_face_guards, src_sc_face_item. cbn [run_guards beval e_members].
+    change (existsb (fun kv => seteqb (order_by nh f) (snd kv)) (h_edge s)) with (has_simplex s (order_by nh f)).
+    rewrite (has_simplex_congr s _ f (order_by_seteq nh f)).
+    destruct (order_by nh f) as [|x o] eqn:Eo.
+    - apply order_by_nil_iff in Eo. subst f. reflexivity.
+    - assert (Ef : f <> []) by (intro Z; apply (proj2 (order_by_nil_iff nh f)) in Z; congruence).
+      unfold add_face. destruct f as [|y f']; [congruence|]. destruct (has_simplex s (y :: f')); [reflexivity|].
+      rewrite exec_list_cons, exec_call.
+      assert (Hsrc := sc_add_face_is_source (x :: o) s). unfold run_method_f, run_guarded in Hsrc. cbn [run_guards] in Hsrc.
+      rewrite <- Eo in *.
+      assert (ND' : NoDup (order_by nh (y :: f'))) by (apply order_by_NoDup; assumption).
+      assert (Nn' : existsb is_none (order_by nh (y :: f')) = false).
+      { destruct (existsb is_none (order_by nh (y :: f'))) eqn:E; [|reflexivity]. exfalso.
+        apply existsb_exists in E. destruct E as (z & Hz & Nz). apply order_by_seteq in Hz. apply Gs in Hz.
+        assert (existsb is_none ms = true) by (apply existsb_exists; exists z; split; assumption). congruence. }
+      specialize (Hsrc ND' Nn').
+      destruct (exec_list src_sc_add_face _ s) as [s' o'] eqn:Ex. unfold ok in Hsrc. injection Hsrc as -> ->.
+      rewrite exec_list_nil. reflexivity. }
+  rewrite Step. unfold ok at 1. rewrite IH; [reflexivity|]. intros g Hg'. apply Hg. right. exact Hg'.
+Qed.
+
+Theorem sc_add_simplex_full_is_source ms idx a hint s :
+  NoDup (snd hint) -> Forall (@NoDup lbl) (fst hint) -> has LNone (h_edge s) = false ->
+  run_add_simplex src_sc_add_simplex_guards src_sc_add_simplex_head src_sc_face_guards src_sc_face_item ms idx a
+                  (map (order_by (snd hint)) (order_faces (subfaces (mkset ms)) (fst hint))) s
+  = add_simplex ms idx a hint s.
+Proof.
+  intros Hn Hh NoNe. unfold run_add_simplex, add_simplex, src_sc_add_simplex_guards. cbn [run_guards beval e_members e_idx tab].
+  destruct (existsb is_none (mkset ms)) eqn:Nn; [reflexivity|].
+  change (existsb (fun kv => seteqb (mkset ms) (snd kv)) (h_edge s)) with (has_simplex s (mkset ms)).
+  destruct (match mkset ms with [] => true | _ => false end); cbn [orb]; [reflexivity|].
+  destruct (has_simplex s (mkset ms)) eqn:G2; [reflexivity|].
+  assert (G3 : has (match idx with Some i => i | None => LNone end) (h_edge s) = (match idx with Some i => has i (h_edge s) | None => false end))
+    by (destruct idx; [reflexivity|exact NoNe]).
+  rewrite G3. destruct (match idx with Some i => has i (h_edge s) | None => false end) eqn:G3'; [reflexivity|].
+  unfold src_sc_add_simplex_head. rewrite exec_list_cons, exec_rebind. cbv zeta. cbn [e_args e_flags e_loop e_attr e_loop1 e_locals e_members e_idx e_uid e_eattr].
+  set (auto := match idx with Some i => py_falsy i | None => true end).
+  change (match idx with Some i => falsy i | None => true end) with auto.
+  set (e := if auto then LInt (h_uid s) else match idx with Some i => i | None => LNone end).
+  set (s0 := if auto then with_uid s (h_uid s + 1) else s).
+  assert (Ne : is_none e = false).
+  { unfold e, auto. destruct idx as [i|]; [|reflexivity]. destruct (py_falsy i) eqn:F; [reflexivity|]. apply py_falsy_not_none. exact F. }
+  rewrite exec_list_cons, exec_call.
+  assert (Hsrc := sc_add_simplex_is_source (mkset ms) e a s0 (NoDup_mkset ms) Nn Ne).
+  unfold run_method_f, run_guarded in Hsrc. cbn [run_guards] in Hsrc.
+  destruct (exec_list src_sc_add_simplex _ s0) as [s' o'] eqn:Ex. unfold ok in Hsrc. injection Hsrc as -> ->.
+  rewrite exec_list_cons, exec_uid. cbn [veval e_idx]. rewrite !exec_list_nil.
+  unfold add_faces.
+  apply (face_loop_ok (mkset ms) (snd hint) Hn Nn).
+  apply order_faces_good; [apply NoDup_mkset|exact Hh].
+Qed.
